@@ -78,7 +78,10 @@ def gen_e2e(rng, n_cases):
         al = rng.choice([None, None, 0, 1000, 2500, now, now + 1000])
         if bl is None and il is None and al is None:
             il = n - 1
-        cases.append({"mode": "e2e", "entries": entries, "bl": bl, "il": il, "al": al, "now": now})
+        orphans = []
+        if rng.random() < 0.5:
+            orphans = [[rng.choice(["empty", "meta"]), rng.randint(0, tmax) * 1000 + 500] for _ in range(rng.choice([1, 1, 2, 3]))]
+        cases.append({"mode": "e2e", "entries": entries, "orphans": orphans, "bl": bl, "il": il, "al": al, "now": now})
     return cases
 
 
@@ -139,17 +142,22 @@ def judge_unit(c, r):
 def judge_e2e(c, r):
     if "harness_error" in r:
         return "harness error " + r["harness_error"]
-    exp = oracle(r["items"], c["bl"], c["il"], c["al"], c["now"])
+    if "fs_items" in r and sorted(r["fs_items"]) != sorted(r["items"]):
+        return "get_items() does not list the store: it reports %s, the directory tree holds %s ([id,size,atime]; negative id = " \
+               "entry directory without output.pkl)" % (sorted(r["items"]), sorted(r["fs_items"]))
+    exp = oracle(r.get("fs_items", r["items"]), c["bl"], c["il"], c["al"], c["now"])
     if "raise" in exp or "raise" in r:
         return None if exp.get("raise") == r.get("raise") else "expected %s got %s" % (exp, r)
     evicted = set(exp["ok"])
     should_survive = sorted(a for a, _, _ in c["entries"] if a not in evicted)
-    if r["dirs_left"] != should_survive or r["survivors"] != should_survive:
-        return "after reduce_size survivors=%s dirs=%s, expected %s (store as seen: %s)" % (
-            r["survivors"], r["dirs_left"], should_survive, r["items"])
+    all_ids = [a for a, _, _ in c["entries"]] + [-(i + 1) for i in range(len(c.get("orphans", [])))]
+    dirs_should = sorted(a for a in all_ids if a not in evicted)
+    if r["dirs_left"] != dirs_should or r["survivors"] != should_survive:
+        return "after reduce_size survivors=%s dirs=%s, expected survivors %s dirs %s (store: %s)" % (
+            r["survivors"], r["dirs_left"], should_survive, dirs_should, r.get("fs_items", r["items"]))
     if not r["values_ok"]:
         return "a cached call returned a wrong value after reduce_size"
-    if r["recomputed"] != sorted(evicted):
+    if r["recomputed"] != sorted(a for a in evicted if a > 0):
         return "recomputed %s but evicted %s" % (r["recomputed"], sorted(evicted))
     return None
 
@@ -257,7 +265,8 @@ def run(ctx):
             if m.get("raise") != r.get("raise"):
                 disagreements.append({"function": "reduce_size", "case": c, "model": m, "impl": r})
             continue
-        exp = sorted(a for a, _, _ in c["entries"] if a not in set(m["ok"]))
+        all_ids = [a for a, _, _ in c["entries"]] + [-(i + 1) for i in range(len(c.get("orphans", [])))]
+        exp = sorted(a for a in all_ids if a not in set(m["ok"]))
         if exp != r["dirs_left"]:
             disagreements.append({"function": "reduce_size", "case": c, "model": m, "impl": r})
     # decide
